@@ -41,6 +41,10 @@ CHECKS.update({
     'C16': ('model_checking', 'PARTIAL (operating system modelled): symbolic execution of main.main, Command.Run and Generate/prepare/renderTemplate with the OS, the flag parser, Parse, Generate, isIDValid and template execution as contract-constrained nondeterministic stubs: status 0 and the success message iff every step succeeded and all six files were opened exclusively under <out>/<name>; flags honoured; invalid name rejected before anything is created; no call that could touch pre-existing state', '§7 C16'),
 })
 
+CHECKS.update({
+    'C17': ('model_checking', 'PARTIAL: two-thread mode of the symbolic executor - two harness bodies (hashStrings; spec.Parse of two specifications) run as coroutines, every call/load/store/map access inside the watched functions is a preemption point and the schedule (bounded number of context switches) is a path decision, so all such schedules are explored; each result must equal the isolated result and must not depend on what was processed before; a counterexample is confirmed natively with the race detector', '§7 C17'),
+})
+
 NA = {
     'C07': 'well-formedness checks run on hash tables keyed by fnv hashes and are reachable only through the whole parse; a solver decides nothing there that running the program does not (DESIGN.md §7 C07)',
     'C12': 'structural equality between two finite lists per directive list; no second dimension for a solver to quantify over (DESIGN.md §7 C12)',
